@@ -141,10 +141,10 @@ CHECKS['C06'] = dict(
     parallel=4,
     parts=[schedx_part('asan', 'c06_thpool', ['thpool', 'structs', 'utils'],
                        quick=_c06_runs(_c06_cfgs(2, 2), 2, 0, 100, 4, ['--prune', 1], sub_budget=1),
-                       thorough=_c06_runs(_c06_cfgs(3, 3), 3, 1, 1200, 4, ['--prune', 1], sub_budget=2)),
+                       thorough=_c06_runs(_c06_cfgs(3, 3), 3, 1, 300, 4, ['--prune', 1], sub_budget=2)),
            schedx_part('tsan', 'c06_thpool', ['thpool', 'structs', 'utils'], variant='tsan',
                        quick=_c06_runs([c for c in _c06_cfgs(2, 2, False) if c['threads'] == 2 and c['tasks'] == 2 and (not c['submitters'] or (c['flags'] in (0, 3) and c['wait'] == 1))], 1, 0, 100, 4, ['--prune', 1]),
-                       thorough=_c06_runs(_c06_cfgs(2, 3, False), 2, 1, 1200, 4, ['--prune', 1]))],
+                       thorough=_c06_runs(_c06_cfgs(2, 3, False), 2, 1, 300, 4, ['--prune', 1]))],
 )
 
 
